@@ -30,9 +30,13 @@ LENGTH_CHANGERS = ('__setitem__', '__delitem__', '__iadd__', '__imul__', 'append
 TOKENS = ['uint:8', 'u5', 'int:7', 'hex:8', 'hex', 'bin:3', 'bin', 'oct:6', 'float:32', 'floatle:16', 'bool', 'bits:5', 'bits', 'bytes:1', 'bytes', 'pad:3',
           'ue', 'se', 'uie', 'sie', 'uintle:16', 'intbe:24', 'uintne:16', 'e4m3mxfp', 'e5m2mxfp', 'p4binary', 'p3binary', 'bfloat', 'e3m2mxfp',
           'e2m1mxfp', 'e8m0mxfp', 'mxint', '>H', '<hb', '=I', 'uint:n', 'int', 'uint', 'float', 'uint:0', 'uint:-1', 'foo', 'u', '2*u4', '3*(bin:1, pad:1)',
-          'hex:7', 'float:12', 'bool:2', '', ',', 'uint:8=3', '0xff', '2*(', 'bytes:0', 'bits:0', 'pad:0', 'bin:0', 'uint:1000', 'pad', 'bool, bool', 'intle:8']
+          'hex:7', 'float:12', 'bool:2', '', ',', 'uint:8=3', '0xff', '2*(', 'bytes:0', 'bits:0', 'pad:0', 'bin:0', 'uint:1000', 'pad', 'bool, bool', 'intle:8',
+          'pad:99999999999999999999999', 'uint:18446744073709551616', 'bits:99999999999999999999', 'hex:340282366920938463463374607431768211456',
+          'x*(u8), 3*(u8)', '2*(u8), y*(bool)', '0*(u8)', '2*(2*(bool))', '3*bool, n*(u4)']
 BAD_STRINGS = ['', ' ', '0x', '0b2', '0xfg', 'uint:8=300', 'foo=1', '=', ':', '0o8', '1*', '*3', '2*(0b1', 'uint:8=,', 'ue=-1', 'float:32=abc', '0b1,,0b0',
-               'int:0=0', '0X_F', 'bin=', 'bytes:1=a', 'bits:3=0b1', 'pad:-1', 'uint8=1, ', '()']
+               'int:0=0', '0X_F', 'bin=', 'bytes:1=a', 'bits:3=0b1', 'pad:-1', 'uint8=1, ', '()',
+               'x*(0b1),3*(0b1)', 'a*(0b1), 2*(0x1)', '2*(0b1),x*(3*(0b1))', '(0b1)', '*(0b1)', '2*(0b1))', '-1*(0b1)', '99999999999999999999*(0b1)',
+               'pad:99999999999999999999999', 'uint:99999999999999999999999=1', '0b1, 2*(x*(0b1)), 3*(0b0)']
 FLOATS = [0.0, -0.0, 1.5, -2.25, 1e10, 65504.0, 65520.0, 1e39, -1e39, 3.4e38, 'nan', 'inf', '-inf', 5e-324, 448.0, 57344.0, 0.001]
 
 
@@ -342,14 +346,21 @@ class EChaos(Engine):
         if kind == 'ctor':
             cls = g.pick(CLASSES + ('Array',))
             if cls == 'Array':
-                return {'k': 'ctor', 'cls': 'Array', 'dtype': g.pick([{'t': 'str', 'v': g.pick(TOKENS)}, {'t': 'dtype', 'token': g.pick(TOKENS[:30])}]),
+                dspec = g.pick([{'t': 'str', 'v': g.pick(TOKENS)}, {'t': 'dtype', 'token': g.pick(TOKENS[:30])},
+                                {'t': 'dtype', 'token': g.pick(['e4m3mxfp', 'e5m2mxfp', 'e3m2mxfp', 'e2m1mxfp', 'p4binary', 'p3binary', 'mxint', 'float16', 'bfloat', 'uint8', 'int5', 'e8m0mxfp']),
+                                 'scale': g.pick(['auto', 'auto', 2, 0.5, 0, -1, 2 ** 70])}])
+                if dspec.get('scale') == 'auto' and g.chance(0.8):
+                    fl = [g.pick(FLOATS + [0.0, 0, 1, -3, 2 ** 70, 1e-320]) for _ in range(g.int(0, 4))]
+                    return {'k': 'ctor', 'cls': 'Array', 'dtype': dspec, 'init': g.pick([{'t': 'floats', 'vals': fl}, {'t': 'floats', 'vals': fl, 'as': 'iter'}, {'t': 'floats', 'vals': fl, 'as': 'tuple'}]),
+                            'trailing': {'t': 'none'}, 'slot': g.int(0, 3)}
+                return {'k': 'ctor', 'cls': 'Array', 'dtype': dspec,
                         'init': g.pick([{'t': 'none'}, {'t': 'int', 'v': g.pick([0, 3, -1, 1000])}, self._bits_spec(g, 16), {'t': 'typed_list', 'n': g.int(0, 3), 'seed': g.int(0, 2 ** 30)},
                                         {'t': 'arr', 'i': 0}, {'t': 'pyarray', 'code': 'H', 'vals': [1, 2]}, {'t': 'writer', 'plan': 'file', 'data': g.bits(24)}]),
                         'trailing': g.pick([{'t': 'none'}, {'t': 'none'}, self._bits_spec(g, 3)]), 'slot': g.int(0, 3)}
             how = g.pick(['auto', 'auto', 'kw', 'kw', 'none', 'file'])
             ev = {'k': 'ctor', 'cls': cls, 'how': how, 'slot': g.int(0, 3)}
             if how == 'auto':
-                ev['auto'] = g.pick([self._bits_spec(g, 16), {'t': 'int', 'v': g.pick([0, 1, 8, -1, 10 ** 6])}, {'t': 'writer', 'plan': 'file', 'data': g.bits(24)},
+                ev['auto'] = g.pick([self._bits_spec(g, 16), {'t': 'int', 'v': g.pick([0, 1, 8, -1, 10 ** 6, 2 ** 63, 2 ** 64, 10 ** 30])}, {'t': 'writer', 'plan': 'file', 'data': g.bits(24)},
                                      {'t': 'writer', 'plan': 'bufreader_bytesio', 'data': g.bits(16)}, {'t': 'float', 'v': 1.5}])
             if how == 'kw':
                 name = g.pick(['uint', 'int', 'hex', 'bin', 'oct', 'bytes', 'float', 'floatle', 'uintle', 'intbe', 'bool', 'bits', 'ue', 'se', 'uie', 'sie', 'bfloat', 'e4m3mxfp', 'p4binary',
@@ -366,7 +377,7 @@ class EChaos(Engine):
                 ev['kw'] = 'filename'
                 ev['kwv'] = {'t': 'path', 'exists': g.chance(0.7), 'data': g.bits(g.pick([0, 8, 24, 40]))}
             if g.chance(0.5):
-                ev['length'] = g.pick([None, 0, 1, 8, 12, 16, 32, -1, 64, 10 ** 6])
+                ev['length'] = g.pick([None, 0, 1, 8, 12, 16, 32, -1, 64, 10 ** 6, 2 ** 63, 2 ** 64, 10 ** 30, -10 ** 30])
             if g.chance(0.3):
                 ev['offset'] = g.pick([None, 0, 1, 8, -1, 100])
             if cls in ('ConstBitStream', 'BitStream') and g.chance(0.3):
@@ -397,8 +408,12 @@ class EChaos(Engine):
         tok = g.pick(TOKENS)
         tbase = tok.split(':')[0].split('=')[0].strip('0123456789*() ,<>=@')
         tval = self._value_for_dtype(g, tbase) if (tbase and call(self.B.Dtype, tbase)[0] == 'ok') else {'t': 'int', 'v': g.pick([0, 1, 5, -1])}
+        # (a scale is documented for numeric interpretations; an out-of-the-ordinary one goes to numeric dtypes only)
+        st_d, d_ = call(self.B.Dtype, tbase) if tbase else ('exc', None)
+        numeric = st_d == 'ok' and d_.return_type in (int, float)
+        scales = [None, None, 1, 2.0, 0, -1, 0.5] + ([10 ** 400, -10 ** 400, 2 ** 1024, 1e308, 5e-324, 'inf', 'nan'] if numeric else [])
         return {'k': 'dtype', 'token': g.pick([{'t': 'str', 'v': tok}, {'t': 'dtype', 'token': tok}]), 'length': g.pick([None, None, 0, 1, 8, 16, -1, 7]),
-                'scale': g.pick([None, None, 1, 2.0, 0, -1, 0.5]), 'then': g.pick(['build', 'parse', 'str', 'props']),
+                'scale': g.pick(scales), 'then': g.pick(['build', 'parse', 'str', 'str', 'props']),
                 'value': tval, 'pvalue': {'t': 'bits', 'form': g.pick(['str', 'Bits', 'BitArray', 'bytes']), 'bin': g.bits(g.pick([0, 1, 8, 16, 32, 64, 7]))}}
 
     # ---- decoding of argument specs ------------------------------------------------------------------------
@@ -438,12 +453,19 @@ class EChaos(Engine):
             except (TypeError, ValueError, OverflowError):
                 return array.array('B', [1])
         if t == 'dtype':
-            st, d = call(B.Dtype, str(spec.get('token', 'uint8')))
+            sc = spec.get('scale')
+            if sc is not None and (sc == 'auto' or (isinstance(sc, (int, float)) and not isinstance(sc, bool))):
+                st, d = call(B.Dtype, str(spec.get('token', 'uint8')), scale=sc)
+            else:
+                st, d = call(B.Dtype, str(spec.get('token', 'uint8')))
             return d if st == 'ok' else str(spec.get('token', 'uint8'))
         if t == 'slice':
             return slice(spec.get('a'), spec.get('b'), spec.get('c'))
         if t == 'list':
             return [self._dec(s, x, used) for s in spec.get('items', [])]
+        if t == 'floats':
+            vals = [float(v) if isinstance(v, (str, float)) else v for v in spec.get('vals', []) if isinstance(v, (str, int, float)) and not isinstance(v, bool)][:6]
+            return iter(vals) if spec.get('as') == 'iter' else tuple(vals) if spec.get('as') == 'tuple' else vals
         if t == 'typed_list':
             d = getattr(self, '_ctor_dtype', None)
             name = d.name if kernel.is_dtype(d) else 'uint'
@@ -739,13 +761,13 @@ class EChaos(Engine):
                 how = ev.get('how')
                 if how == 'auto':
                     a = self._dec(ev.get('auto'), self.objs[0], used)
-                    if isinstance(a, int) and not isinstance(a, bool) and a > 10 ** 6:
-                        a = 10 ** 6
+                    if isinstance(a, int) and not isinstance(a, bool) and 10 ** 6 < a < 2 ** 62:
+                        a = 10 ** 6          # (a length nobody could allocate must be refused cleanly; a merely large one is not executed)
                     return C(a, **kw)
                 if how in ('kw', 'file'):
                     kw[str(ev.get('kw', 'uint'))] = self._dec(ev.get('kwv'), self.objs[0], used)
                     return C(**kw)
-                if kw.get('length', 0) and kw['length'] > 10 ** 6:
+                if kw.get('length', 0) and 10 ** 6 < kw['length'] < 2 ** 62:
                     kw['length'] = 10 ** 6
                 return C(**kw)
             st, r = call(go)
@@ -800,6 +822,8 @@ class EChaos(Engine):
             def go():
                 tok = self._dec(ev.get('token'), None, used)
                 ln, sc = ev.get('length'), ev.get('scale')
+                if sc in ('inf', 'nan'):
+                    sc = float(sc)
                 d = B.Dtype(tok, ln if isinstance(ln, int) else None, sc if isinstance(sc, (int, float, str)) or sc is None else None)
                 then = ev.get('then')
                 if then == 'build':
